@@ -1,0 +1,52 @@
+//! Verification hook H6 (compiled only with `--cfg excsn_fibre_verif`).
+//!
+//! Lets an external model-checking harness drive the *real* rolling file
+//! writer with an injected clock and reach the crate-private encoder factory.
+//! Nothing here changes behaviour: every function forwards to the code path
+//! production uses.
+
+use crate::config::processed::{EncoderInternal, RollingPolicyInternal};
+use crate::encoders::EventFormatter;
+use crate::error::Result;
+use crate::roller::CustomRoller;
+
+use chrono::{DateTime, Utc};
+use std::io::{self, Write};
+
+/// The private `CustomRoller`, with `Utc::now()` replaced by a caller-supplied instant.
+pub struct Roller {
+  inner: CustomRoller,
+}
+
+impl Roller {
+  /// What `CustomRoller::new` does at instant `now` (no error channel).
+  pub fn open_at(policy: RollingPolicyInternal, now: DateTime<Utc>) -> Result<Self> {
+    Ok(Self {
+      inner: CustomRoller::verif_new_at(policy, now)?,
+    })
+  }
+
+  /// What the appender thread's `writer.write_all(bytes)` does when every
+  /// `Write::write` call it makes observes the clock at `now`.
+  pub fn write_at(&mut self, now: DateTime<Utc>, mut bytes: &[u8]) -> io::Result<()> {
+    while !bytes.is_empty() {
+      match self.inner.verif_write_at(bytes, now) {
+        Ok(0) => return Err(io::Error::new(io::ErrorKind::WriteZero, "failed to write whole buffer")),
+        Ok(n) => bytes = &bytes[n..],
+        Err(ref e) if e.kind() == io::ErrorKind::Interrupted => {}
+        Err(e) => return Err(e),
+      }
+    }
+    Ok(())
+  }
+
+  /// `Write::flush` of the roller (clock-independent).
+  pub fn flush(&mut self) -> io::Result<()> {
+    self.inner.flush()
+  }
+}
+
+/// The factory `init` uses to build an appender's encoder.
+pub fn new_event_formatter(config: &EncoderInternal) -> Box<dyn EventFormatter> {
+  crate::encoders::new_event_formatter(config)
+}
